@@ -873,6 +873,30 @@ def stage_reuse(ctx, rec, exprs, metas):
                 ctx.nontriv(("life", tuple(evkinds)))
 
 
+# source tie: the prior terms of both strategies' residual vectors and the error scaling, as written now
+SRC_ITEMS = [
+    dict(file="holopy/inference/scipyfit.py", qualname="LeastSquaresScipyStrategy.fit.residual", name="scipy_zscore_src",
+         fn=lambda repo: __import__("harness.lib.pysrc", fromlist=["x"]).translate_segment(
+             repo, "holopy/inference/scipyfit.py", "LeastSquaresScipyStrategy.fit.residual", "scipy_zscore_src", "ln_prior", "zscore_prior",
+             ["zscore_prior"], inputs=["guess_lnprior"], opaque_exprs={"model._lnprior(unscaled_values)": "lnp"})),
+    dict(file="holopy/inference/scipyfit.py", qualname="LeastSquaresScipyStrategy.fit", name="scipy_errors_src",
+         fn=lambda repo: __import__("harness.lib.pysrc", fromlist=["x"]).translate_segment(
+             repo, "holopy/inference/scipyfit.py", "LeastSquaresScipyStrategy.fit", "scipy_errors_src", "errors_scaled", "errors_scaled",
+             ["errors_scaled"], inputs=["noise", "unit_errors"])),
+    dict(file="holopy/inference/nmpfit.py", qualname="NmpfitStrategy.calc_residuals", name="nmp_prior_res_src",
+         fn=lambda repo: __import__("harness.lib.pysrc", fromlist=["x"]).translate_segment(
+             repo, "holopy/inference/nmpfit.py", "NmpfitStrategy.calc_residuals", "nmp_prior_res_src", "prior_residuals", "prior_residuals",
+             ["prior_residuals"], inputs=["current_lnpriors"], self_attrs={"_guess_lnpriors": "guess_lnpriors"},
+             extra_sig="(guess_lnpriors : R)")),
+]
+
+
+def stage_srctie(ctx):
+    from harness.lib import srctie
+    ok = srctie.run(ctx, "C13", "From Coq Require Import Lia.\nFrom HV Require Import C13.Model C13.Lemmas C13.Props.\n", SRC_ITEMS)
+    ctx.count("srctie:%s" % ("ok" if ok else "broken"))
+
+
 def run(ctx):
     ctx.rule = ("generated single-sphere problems (Mie / MieLens incl. fitted lens angle; grids 12..20 square; full image "
                 "and random pixel subsets; Uniform incl. half-infinite and improper / Gaussian / BoundedGaussian priors; "
@@ -900,7 +924,15 @@ def run(ctx):
         "oracle: np.sqrt (only sqrt 0 = 0 is used; prior residuals are compared through their squares)",
         "oracle: np.log / normalisation constants of the priors (C14), passed as the values the implementation computed",
         "recording shims replace holopy.inference.nmpfit.nmpfit / scipyfit.least_squares / make_subset_data inside the check process only"]
+    ctx.trusted.append("source translator harness/lib/pysrc.py (python floats read as reals; lnprob values opaque reals) for the source tie")
+    ctx.clauses_proved.append(
+        "source tie: the prior z-score LeastSquaresScipyStrategy appends (sqrt(2 * -(lnprior - lnprior(guess)))), the per-parameter prior "
+        "residual of NmpfitStrategy (sqrt(lnprior_i(guess) - lnprior_i)) and the error scaling noise * unit_errors, translated from the "
+        "current source text on every run, are the model's zscore / prior_res1 / scipy_intervals; they vanish at the guess and their "
+        "squares are 2 (g - l) and g - l [scipy_zscore_src_is_model, nmp_prior_res_src_is_model, scipy_errors_src_is_model, "
+        "src_prior_terms_vanish_at_guess, src_prior_terms_square]")
     guarded(ctx, "prove", ctx.prove)
+    guarded(ctx, "source-tie", stage_srctie, ctx)
     boot.boot()
     tmpdir = os.path.join(RUN_ROOT, "C13files")
     os.makedirs(tmpdir, exist_ok=True)
